@@ -26,6 +26,12 @@ CLEAR_FEATURE(ENDPOINT_HALT) whose status-stage ZLP the host ACKs sets the toggl
 wIndex[7]) to DATA0.  IN: observed PID and packet index must equal the model; OUT: data sent with the model's
 expected toggle must be ACKed and delivered exactly once, data with the other toggle must be ACKed and dropped.
 
+Known findings (findings/C14.md), each with a narrow classifier: `clear_halt_applied_by_unrelated_ack` (only when a standard
+CLEAR_FEATURE request was left unfinished, the host then ACKed something that is not the status stage of a clear-halt, the
+endpoint was named by a SETUP in that window, and the observed toggle is the reset value) and
+`signal_endpoint_ignores_clear_halt` (only for the signal endpoint, only DATA1 where a completed clear-halt of it at DATA1
+demands DATA0).  Everything else is reported as in_wrong_toggle / out_toggle_out_of_step / *_not_reset_by_clear_halt / ...
+
 Not judged: the control endpoint's own responses (C07-C10); whether a valid CLEAR_FEATURE is completed by the device
 (a request that never completes resets nothing); OUT buffer overflow (C13; never provoked); host-illegal wIndex
 values with reserved bits set.  A status-stage ACK that the host sends but the device cannot see is not generated.
